@@ -78,6 +78,7 @@ class Monitor:
         self.entered = set()
         self.cached_entered = []  # Cached objects whose evaluate implementation ran (this op)
         self.cache_lookups = set()  # (id(evaluatable), id(cache)) of the CacheExistsRequests seen (this op)
+        self.values_seen = set()  # marker constants whose Value node was evaluated through a request (this op)
         self.violation = None
 
     def handlers(self, only=None):
@@ -97,6 +98,8 @@ class Monitor:
             entry = [op, getattr(request, attr), 0, False]  # (operation, object, type validations seen, implementation entered)
             self.stack.append(entry)
             self.seen[op] = self.seen.get(op, 0) + 1
+            if op == "evaluate" and type(entry[1]) is ltypes.Value and isinstance(entry[1].value, str) and entry[1].value.startswith("pv"):
+                self.values_seen.add(entry[1].value)
             try:
                 out = default(request)
             finally:
@@ -153,6 +156,14 @@ class Monitor:
                 self.violation = ("cache-backend-called-without-request", {"method": m, "backend": cls})
 
 
+def _markers(x):
+    if isinstance(x, str):
+        return [x] if x.startswith("pv") else []
+    if isinstance(x, (tuple, list)):
+        return [m for y in x for m in _markers(y)]
+    return []
+
+
 class _Sink(logging.Handler):
     def __init__(self, monitor):
         super().__init__(level=logging.DEBUG)
@@ -193,9 +204,9 @@ class C18(HistoryProperty):
 
     def gen_case(self, rng, tier):
         subst = rng.random() < 0.5
-        cfg = gen.swarm_cfg(rng, off=("shape_change",) + (("cached", "derive") if subst else ()), on=("dsclass",))
+        cfg = gen.swarm_cfg(rng, off=("shape_change",) + (("cached", "derive") if subst else ()), on=("dsclass", "fapp"))
         spec = gen.gen_spec(rng, cfg)
-        inner = [n["id"] for n in spec["nodes"] if n["k"] in ("switch", "case", "coalesce", "bind", "map", "template", "apply", "dsclass")]
+        inner = [n["id"] for n in spec["nodes"] if n["k"] in ("switch", "case", "coalesce", "bind", "map", "template", "apply", "dsclass", "fapp")]
         spec["roots"] = list(dict.fromkeys(spec["roots"] + rng.sample(inner, min(len(inner), rng.randint(0, 2)))))
         rec = None
         if rng.random() < 0.2:
@@ -286,7 +297,7 @@ class C18(HistoryProperty):
                     if mode == "pass":
                         did_pass = True
                         mon.violation = None
-                        mon.cached_entered, mon.cache_lookups = [], set()
+                        mon.cached_entered, mon.cache_lookups, mon.values_seen = [], set(), set()
                         mon.active = True
                         with lrt.handle(mon.handlers(op.get("only"))):
                             if op.get("only") is None:
@@ -307,6 +318,17 @@ class C18(HistoryProperty):
                                 if (id(c.evaluatable), id(c.cache)) not in mon.cache_lookups:
                                     mon.violation = ("cached-evaluated-without-cache-request", {"cached": repr(c)[:120]})
                                     break
+                        if not mon.violation and (op.get("only") is None or "evaluate" in op["only"]):
+                            # data flow as ground truth: a marker constant that reached a user function came out of its Value
+                            # node, and that evaluation is an operation the handler must have observed
+                            for ev in w.log.events[b0:]:
+                                if ev[0] == "call" and ev[2] == "fapp":
+                                    lost = [m for m in _markers(ev[5]) if m not in mon.values_seen]
+                                    if lost:
+                                        res.violate("value-reached-function-without-evaluate-request", op_index=i, node=op["node"], o=op["o"], function=ev[3], constants=lost)
+                                        break
+                            if res.violations:
+                                break
                         if mon.violation and op.get("only") is None:
                             res.violate(mon.violation[0], op_index=i, node=op["node"], o=op["o"], op_kind=op["op"], **mon.violation[1])
                             break
